@@ -135,6 +135,8 @@ REAL_ALGS = [
     "gateaux_expand",
     "ufl2unicode",
 ]
+STRING_ALGS = ("str", "formatter_tree", "ufl2unicode")  # results spell out index counts
+STRING_INSTANCES = ("Expression2UnicodeHandler",)
 FAULT_FILES = ["corealg/multifunction.py", "algorithms/transformer.py"]
 
 
@@ -187,6 +189,7 @@ class C20(Scenario):
         if arm == "real-algs":
             w["apply"] = 2
         reals = []
+        real_names_ = {}
         kinds = list(w)
 
         def kind_of(base):
@@ -406,15 +409,27 @@ class C20(Scenario):
             elif k == "mkreal":
                 if len(reals) >= 6:
                     continue
-                units.append({"n": 0, "k": "mkreal", "op": ["mkreal", next_a, rng.choice(REAL_INSTANCES)]})
+                rn = rng.choice(REAL_INSTANCES)
+                units.append({"n": 0, "k": "mkreal", "op": ["mkreal", next_a, rn]})
                 reals.append(next_a)
+                real_names_[next_a] = rn
                 next_a += 1
             elif k == "applyinst":
                 if not reals:
                     continue
                 pool = [e[0] for e in exprs] * 4 + KIT_ALL
                 units.append({"n": 0, "k": "applyinst", "op": ["applyinst", None, rng.choice(reals), rng.choice(pool)]})
-        return {"nodes": [{"salt": salt, "init": KIT}, {"salt": salt, "init": KIT}], "units": units}
+        plan = {"nodes": [{"salt": salt, "init": KIT}, {"salt": salt, "init": KIT}], "units": units}
+        if arm == "real-algs" or rng.random() < 0.25:
+            # third node: the judged applications of UFL's own algorithms run in a process in
+            # which those algorithms were never used before (no warm-up, no earlier
+            # applications); results are compared through count-invariant digests
+            plan["nodes"].append({"salt": salt, "init": KIT})
+            plan["isolated"] = True
+            for u in units:
+                if (u["k"] == "applyreal" and u["op"][2] not in STRING_ALGS) or (u["k"] == "applyinst" and real_names_.get(u["op"][2]) not in STRING_INSTANCES):
+                    u["op"] = list(u["op"]) + ["sig"]
+        return plan
 
     # -- expansion: node 0 = as scheduled; node 1 = twin with all registrations first, no faults
     def expand(self, plan):
@@ -433,19 +448,62 @@ class C20(Scenario):
                 continue
             steps.append([1, u["op"]])
             uos.append(ui)
+        if plan.get("isolated") and len(plan["nodes"]) > 2:
+            judged = self.judged_units(units)
+            keep = ("regtype", "regdrule", "regrule", "defalg", "mkalg", "mkreal", "newexpr", "wrap")
+            for ui, u in enumerate(units):
+                if u["k"] in ("regtype", "regdrule"):
+                    steps.append([2, u["op"]])
+                    uos.append(ui)
+            for ui, u in enumerate(units):
+                if (u["k"] in keep and u["k"] not in ("regtype", "regdrule")) or ui in judged:
+                    steps.append([2, u["op"]])
+                    uos.append(ui)
         return {"nodes": plan["nodes"], "steps": steps, "unit_of_step": uos}
+
+    @staticmethod
+    def judged_units(units):
+        """Applications of UFL's own algorithms whose outcome must not depend on earlier use:
+        those made when every differentiation rule that will ever be registered for a type in
+        their expression is already registered (an application made before a rule exists may
+        legitimately differ from one made after)."""
+        last_rule = {}
+        for ui, u in enumerate(units):
+            if u["k"] == "regdrule":
+                last_rule[u["op"][2][1]] = ui
+        expr_types = {}
+        out = []
+        for ui, u in enumerate(units):
+            op = u["op"]
+            if u["k"] == "newexpr":
+                ts = {op[2][1]}
+                if op[3] is not None:
+                    for a in [op[3]] if op[3] and op[3][0] == "$" else op[3]:
+                        ts |= expr_types.get(a[1], set())
+                expr_types[op[1]] = ts
+            elif u["k"] == "wrap":
+                ts = set()
+                for a in op[3]:
+                    if isinstance(a, list) and a and a[0] == "$":
+                        ts |= expr_types.get(a[1], set())
+                expr_types[op[1]] = ts
+            elif u["k"] in ("applyreal", "applyinst") and len(op) > 4 and op[4] == "sig":
+                if all(last_rule.get(t, -1) < ui for t in expr_types.get(op[3], set())):
+                    out.append(ui)
+        return set(out[-8:])
 
     def check(self, plan, xp, history):
         units = plan["units"]
         uos = xp["unit_of_step"]
         main = {}
         twin = {}
+        iso = {}
         faults = {"interrupt": {"configured": 0, "fired": 0}, "memerr": {"configured": 0, "fired": 0}, "stack": {"configured": 0, "fired": 0}}
         for ev in history:
             si, node, op, r = ev
             if si < 0:
                 continue
-            (main if node == 0 else twin)[uos[si]] = r
+            (main if node == 0 else twin if node == 1 else iso)[uos[si]] = r
         viols = []
         probes = {
             "apply_after_late_registration": 0,
@@ -455,6 +513,7 @@ class C20(Scenario):
             "apply_total": 0,
             "real_instance_applied": 0,
             "interrupt_landed_in_dispatch": 0,
+            "judged_against_never_used_process": 0,
             "late_type_met_by_preexisting_real_instance": 0,
         }
         # when was each type registered / each class first instantiated / each instance made
@@ -594,6 +653,16 @@ class C20(Scenario):
                             "clause": "D1-dispatch-error",
                             "unit": ui,
                             "detail": {"alg": real_name.get(op[2], op[2]), "main": vm},
+                            "fingerprint": "real-alg" if u["k"] == "applyreal" else "real-instance",
+                        }
+                    )
+                elif ui in iso and "skip" not in iso[ui] and rm != iso[ui]:
+                    probes["judged_against_never_used_process"] = probes.get("judged_against_never_used_process", 0) + 1
+                    viols.append(
+                        {
+                            "clause": "D4-first-use",
+                            "unit": ui,
+                            "detail": {"alg": real_name.get(op[2], op[2]), "main": _short(rm), "never_used_before": _short(iso[ui])},
                             "fingerprint": "real-alg" if u["k"] == "applyreal" else "real-instance",
                         }
                     )
